@@ -62,6 +62,18 @@ package service
 //@   ensures C04.rest: err == nil ==> nocomplete(p.historyData)
 //@   loop 1 invariant C04.one: forall(j, 0, len(msgs), oneframe(msgs[j].ExtensionFields.TerminalData))
 //@   loop 2 invariant C04.scan: 1 <= i && forall(k, 1, i, p.historyData[k] != 0x7e) && end == 0 - 1
+// conservation, stated inductively: the pending bytes are always a suffix of (old pending bytes ++ read); every message
+// is built from the bytes at the head of the pending buffer, which then advances by exactly that many bytes; only
+// single-frame-shaped byte strings are ever handed to Decode (so an error is the error of one frame, not of a merge)
+//@   loop 1 invariant C04.len: len(p.historyData) <= old(len(p.historyData)) + len(data)
+//@   loop 1 invariant C04.sufdata: forall(j, 0, len(data), len(p.historyData) - len(data) + j >= 0 ==> p.historyData[len(p.historyData) - len(data) + j] == old(data[j]))
+//@   loop 1 invariant C04.sufhist: forall(j, 0, old(len(p.historyData)), len(p.historyData) - len(data) - old(len(p.historyData)) + j >= 0 ==> p.historyData[len(p.historyData) - len(data) - old(len(p.historyData)) + j] == old(p.historyData[j]))
+//@   ensures C04.len: len(p.historyData) <= old(len(p.historyData)) + len(data)
+//@   ensures C04.sufdata: forall(j, 0, len(data), len(p.historyData) - len(data) + j >= 0 ==> p.historyData[len(p.historyData) - len(data) + j] == old(data[j]))
+//@   ensures C04.sufhist: forall(j, 0, old(len(p.historyData)), len(p.historyData) - len(data) - old(len(p.historyData)) + j >= 0 ==> p.historyData[len(p.historyData) - len(data) - old(len(p.historyData)) + j] == old(p.historyData[j]))
+//@   precall Decode C04.shape: arg1[0] == 0x7e ==> oneframe(arg1)
+//@   precall newTerminalMessage#2 C04.fast: old(len(p.historyData)) == 0 && sameBytes(arg1, data)
+//@   precall newTerminalMessage#1 C04.piece: len(arg1) == end && forall(k, 0, end, arg1[k] == p.historyData[k])
 //@   ensures valid: forall(j, 0, len(msgs), vmsg(msgs[j]))
 //@   ensures msgsfresh: msgs == nil || fresh(msgs)
 //@   loop 1 invariant valid: forall(j, 0, len(msgs), vmsg(msgs[j]))
